@@ -1,0 +1,44 @@
+//go:build verif
+
+package vm_context
+
+// Contracts checked by /verif (gvc). This file contains comments only and is compiled only with -tags verif.
+//
+// AccountVmContext = store.Account (the account being executed, with its model fields balance / received / seqFront /
+// chainPlasma ...) + the ledger as of the acknowledged momentum + a one-level snapshot for contract calls.
+
+//@ model AccountVmContext momentumStore int            // the store.Momentum of the acknowledged momentum
+//@ model AccountVmContext savedBalance map[arr]int      // snapshot taken by Save(), restored by Reset()
+//@ model AccountVmContext savedReceived map[arr]bool
+//@ model AccountVmContext savedSeqFront int
+//@ model AccountVmContext savedChainPlasma int
+//@ model AccountVmContext savedStorage int
+//@ model AccountVmContext storageVersion int             // abstract version of the contract's key-value storage
+
+//@ func AccountVmContext.MomentumStore(self)
+//@   ensures result != nil && int(result) == self.momentumStore
+//@   modifies nothing
+
+// ---- balances (property C01): the only mutators of a balance -------------------------------------------------------------
+//@ func AccountVmContext.AddBalance(self, ts, amount)
+//@   requires ts != nil && amount != nil
+//@   ensures self.balance == store(old(self.balance), deref(ts), old(self.balance[deref(ts)]) + old(val(amount)))
+//@   modifies self.balance
+
+// SubBalance refuses to go negative: it returns only if the balance covers the amount.
+//@ func AccountVmContext.SubBalance(self, ts, amount)
+//@   requires ts != nil && amount != nil
+//@   ensures old(self.balance[deref(ts)]) >= old(val(amount))
+//@   ensures self.balance == store(old(self.balance), deref(ts), old(self.balance[deref(ts)]) - old(val(amount)))
+//@   modifies self.balance
+
+//@ func accountVmContext.AddBalance(ctx, ts, amount)
+//@   requires ctx != nil && ts != nil && amount != nil
+//@   ensures[credit] ctx.Account.balance == store(old(ctx.Account.balance), deref(ts), old(ctx.Account.balance[deref(ts)]) + old(val(amount)))
+//@   modifies ctx.Account.balance
+
+//@ func accountVmContext.SubBalance(ctx, ts, amount)
+//@   requires ctx != nil && ts != nil && amount != nil
+//@   ensures[never-negative] old(ctx.Account.balance[deref(ts)]) >= old(val(amount))
+//@   ensures[debit] ctx.Account.balance == store(old(ctx.Account.balance), deref(ts), old(ctx.Account.balance[deref(ts)]) - old(val(amount)))
+//@   modifies ctx.Account.balance
